@@ -22,6 +22,8 @@ type Ctx struct {
 
 type propDef struct {
 	ID          string
+	Technique   string
+	Ready       bool
 	Rules       []func(*Ctx)
 	Explanation string
 	NotDecided  string
@@ -41,6 +43,7 @@ func main() {
 	verif := flag.String("verif", "/verif", "verif directory (evidence, replay, known findings)")
 	replay := flag.String("replay", "", "replay file: re-run the rule of one recorded obligation")
 	list := flag.Bool("list", false, "list properties and rules")
+	manifest := flag.Bool("manifest", false, "write MANIFEST.json from the property registry")
 	selftest := flag.Bool("selftest", false, "run fixtures for every rule")
 	flag.BoolVar(&dumpAll, "dump", false, "print every obligation")
 	mutants := flag.Bool("mutants", false, "run the overlay-mutant sweep for -prop (or all)")
@@ -56,6 +59,9 @@ func main() {
 			fmt.Printf("%s: %d rules\n", id, len(props[id].Rules))
 		}
 		return
+	}
+	if *manifest {
+		os.Exit(writeManifest(*repo, *verif))
 	}
 	if *selftest {
 		os.Exit(runSelftest(*verif))
@@ -204,4 +210,87 @@ func joinNonEmpty(sep string, parts ...string) string {
 		}
 	}
 	return strings.Join(out, sep)
+}
+
+// writeManifest generates /verif/MANIFEST.json from the registry. A property
+// whose rule list still contains an unimplemented rule is listed under
+// not_applicable with that reason instead of being claimed.
+func writeManifest(repo, verif string) int {
+	p, err := Load(repo, "", "")
+	if err != nil {
+		fmt.Println(err)
+		return 1
+	}
+	var ids []string
+	for id := range props {
+		if strings.HasPrefix(id, "C") {
+			ids = append(ids, id)
+		}
+	}
+	sort.Strings(ids)
+	type check map[string]interface{}
+	var checks []check
+	var na []map[string]string
+	var served []string
+	for _, id := range ids {
+		pd := props[id]
+		pendingRules = map[string]bool{}
+		func() {
+			defer func() { recover() }()
+			runRules(&Ctx{P: p, R: NewReport(id, "quick")}, pd)
+		}()
+		if len(pendingRules) > 0 {
+			var pr []string
+			for r := range pendingRules {
+				pr = append(pr, r)
+			}
+			sort.Strings(pr)
+			na = append(na, map[string]string{"property_id": id, "reason": "not claimed yet: the static rules " + strings.Join(pr, ", ") + " that DESIGN.md lists for this property are not implemented; no weaker proxy is substituted"})
+			continue
+		}
+		served = append(served, id)
+		checks = append(checks, check{
+			"property_id":         id,
+			"quick_cmd":           "./check.sh " + id + " quick",
+			"thorough_cmd":        "./check.sh " + id + " thorough",
+			"evidence_file":       "/verif/evidence/" + id + ".json",
+			"replay_cmd_template": "bin/gpcheck -replay {path}",
+			"engine":              "gpcheck",
+			"technique":           "static analysis: " + pd.Technique,
+			"level_claimed": map[string]string{
+				"category":   "other",
+				"text":       "Structural necessary conditions of the property decided on every path / every site of the current type-checked source (no execution). " + pd.Explanation,
+				"design_ref": "DESIGN.md section 5 (" + id + ") and section 4 (rule catalogue)",
+			},
+			"level_note": "NOT decided (run-time values, timing, library contracts): " + pd.NotDecided + " Trusted base: go/types, go/cfg, go/packages (x/tools v0.29.0); Go memory model; " + strings.Join(pd.Assume, "; "),
+		})
+	}
+	m := map[string]interface{}{
+		"version":   1,
+		"setup_cmd": "cd /verif/checker && GOFLAGS=-mod=mod GOPROXY=off go build -o ../bin/gpcheck . && cd /verif && bin/gpcheck -selftest",
+		"hooks": map[string]interface{}{
+			"guard":            "verif",
+			"enable":           "none: static analysis needs no instrumentation; no hook commits exist in /repo",
+			"baseline_off_cmd": "cd /repo && GOFLAGS=-mod=mod GOPROXY=off go test -mod=mod -json -vet=off -count=1 -timeout 25m ./...",
+			"source_commits":   []string{},
+			"add_only":         true,
+		},
+		"engines": []map[string]interface{}{{
+			"name": "gpcheck", "path": "/verif/checker", "serves_properties": served,
+			"kind_free_text": "repository-specific static analyser: go/packages loader, node-level CFG from go/cfg with short-circuit expansion, path-sensitive abstract interpreter, lock regions, AST call graph with CHA, rule tables with reviewed exceptions",
+		}},
+		"checks":         checks,
+		"not_applicable": na,
+		"notes":          "Technique family: static analysis only. Every check type-checks /repo's working tree on each run and decides rule instances (obligations); undecided obligations fail the check. Known findings: /verif/known_findings.txt.",
+	}
+	if na == nil {
+		m["not_applicable"] = []map[string]string{}
+	}
+	b, _ := json.MarshalIndent(m, "", " ")
+	if err := os.WriteFile(filepath.Join(verif, "MANIFEST.json"), append(b, '\n'), 0o644); err != nil {
+		fmt.Println(err)
+		return 1
+	}
+	fmt.Printf("MANIFEST.json: %d checks, %d not claimed\n", len(checks), len(na))
+	return 0
 }
